@@ -264,6 +264,14 @@ func evalC18(c c18Case, o *Obs) error {
 	if keySeq(cp) != keySeq(s) {
 		return fmt.Errorf("%s: InPlaceSort order %s differs from Sort order %s", desc, keySeq(cp), keySeq(s))
 	}
+	// "sorting in place yields the same order": also among entries whose keys tie but which differ elsewhere
+	// (sequence number, signature script, token data).  BIP69 leaves their order open, but the two functions
+	// must arrange the same transaction identically, or one logical transaction gets two ids.
+	if a, _ := serializeTx(cp); true {
+		if b, _ := serializeTx(s); !bytes.Equal(a, b) {
+			return fmt.Errorf("%s: InPlaceSort and Sort arrange entries with equal keys differently: the two results serialise differently (%d inputs, %d outputs)", desc, len(tx.TxIn), len(tx.TxOut))
+		}
+	}
 	// non-trivial: >=2 of something with a tie or an inversion
 	nt := false
 	for i := 1; i < len(tx.TxIn); i++ {
@@ -462,7 +470,7 @@ func TestC18(t *testing.T) {
 			"amount then lexicographic script), multiset equality on full content, original byte-identical with the same pointers "+
 			"in the same order, InPlaceSort same key sequence, IsSorted <=> reference sortedness, idempotence. Non-trivial = a key "+
 			"tie or inversion between neighbours.",
-			"relative order of elements with equal keys is not asserted (sort.Sort is not stable)")
+			"which order elements with equal keys end up in is not prescribed (sort.Sort is not stable); only that Sort and InPlaceSort arrange the same transaction identically")
 		exhaustiveC18(ev)
 		kC18.Run(t, ev, perShard(pick(6000, 3000000)))
 		runConcurrent(kC18, t, ev, perShard(pick(150, 15000)), 8)
